@@ -1,6 +1,6 @@
 #!/bin/bash
 # Builds the framework offline from files on disk: Lean library (all quick-tier theorem modules),
-# the native model driver `ptmodel`, and both Rust harnesses against /repo's working tree.
+# the native model driver `ptmodel`, and the three Rust harnesses against /repo's working tree.
 set -e
 cd "$(dirname "$0")/.."
 ROOT=$(pwd)
@@ -10,7 +10,7 @@ python3 translator/rs2lean_validate.py $REPO > lean/PolytuneModel/Gen/Validate.l
 python3 translator/checksites.py $REPO > lean/PolytuneModel/Gen/Sites.lean.new && mv lean/PolytuneModel/Gen/Sites.lean.new lean/PolytuneModel/Gen/Sites.lean
 python3-vt translator/rs2lean_nat.py $REPO > lean/PolytuneModel/Gen/Arith.lean.new && mv lean/PolytuneModel/Gen/Arith.lean.new lean/PolytuneModel/Gen/Arith.lean
 (cd lean && lake build ptmodel $(ls PolytuneModel/Thm/*.lean | grep -v -e C13term -e C13n3 | sed 's#/#.#g; s#\.lean$##'))
-for h in harness harness-server; do
+for h in harness harness-server harness-http; do
   cp $REPO/Cargo.lock $h/Cargo.lock
   (cd $h && CARGO_NET_OFFLINE=true cargo build --release --offline)
 done
